@@ -170,6 +170,14 @@ def loops(n):
      # loop(i, best) = (best < n)(loop(i + 1, (best < i)(i, best)), best) from (0, 0): counts up, the new state is a bare reference to the forced counter
      "running-max-up": (f"ㄱ ㄱ (((ㄱㅇㄱ ㄴ ㄷㅎㄷ) ((ㄱㅇㄱ) (ㄴㅇㄱ) (ㄴㅇㄱ ㄱㅇㄱ ㅈㅎㄷ) ㅎㄷ) ㄱㅇ ㅎㄷ) (ㄴㅇㄱ) (ㄴㅇㄱ {E(n)} ㅈㅎㄷ) ㅎㄷ ㅎ) ㅎㄷ", str(n)),
      "mutual":       (f"{E(n)} (ㄱ ({dec} ({g_body} ㅎ) ㅎㄴ) ({z}) ㅎㄷ ㅎ) ㅎㄴ", "0"),                                      # f calls g (defined inside f), g calls f
+     # the recursive call made THROUGH another callable, still in tail position: a one-stage pipe of f, a two-stage pipe (decrement, then f), f taken
+     # out of a list / a dictionary by calling it, f through a collect function, and a Boolean selection nested twice
+     "via-pipe":     (f"{E(n)} (ㄱ ({dec} (ㄱㅇ ㄴㄱㅎㄴ) ㅎㄴ) ({z}) ㅎㄷ ㅎ) ㅎㄴ", "0"),
+     "via-pipe-2":   (f"{E(n)} (ㄱ (ㄱㅇㄱ ((ㄱㅇㄱ ㄴㄱ ㄷㅎㄷ) ㅎ) ㄱㅇ ㄴㄱㅎㄷ ㅎㄴ) ({z}) ㅎㄷ ㅎ) ㅎㄴ", "0"),
+     "via-list-call": (f"{E(n)} (ㄱ ({dec} (ㄱ (ㄱㅇ ㅁㄹㅎㄴ) ㅎㄴ) ㅎㄴ) ({z}) ㅎㄷ ㅎ) ㅎㄴ", "0"),
+     "via-dict-call": (f"{E(n)} (ㄱ ({dec} (ㄴ (ㄴ ㄱㅇ ㅅㅈㅎㄷ) ㅎㄴ) ㅎㄴ) ({z}) ㅎㄷ ㅎ) ㅎㄴ", "0"),
+     "via-collect":  (f"{E(n)} (ㄱ ((({dec}) ㅁㄹㅎㄴ) (ㄱㅇ ㅁㅂㅎㄴ) ㅎㄴ) ({z}) ㅎㄷ ㅎ) ㅎㄴ", "0"),
+     "nested-selection": (f"{E(n)} (ㄱ (ㄱ ({dec} ㄱㅇ ㅎㄴ) (ㄱㅇㄱ ㄱ ㅈㅎㄷ) ㅎㄷ) ({z}) ㅎㄷ ㅎ) ㅎㄴ", "0"),
      "io-bind":      (f"{E(n)} ((ㄱ ㄱㅅㅎㄴ) ((ㄱ ㄱㅅㅎㄴ) ((ㄱㅇㄴ ㄴㄱ ㄷㅎㄷ) ㄴㅇ ㅎㄴ ㅎ) ㄱㄹㅎㄷ) ({z}) ㅎㄷ ㅎ) ㅎㄴ", "0"),      # loop(k) = (k==0)(return 0, return 0 >>= \\_. loop(k-1))
     }
 def nontail(n): return f"{E(n)} (ㄱ (ㄴ ({'ㄱㅇㄱ ㄴㄱ ㄷㅎㄷ'} ㄱㅇ ㅎㄴ) ㄷㅎㄷ) (ㄱㅇㄱ ㄱ ㄴㅎㄷ) ㅎㄷ ㅎ) ㅎㄴ"         # f(k) = (k==0)(0, 1 + f(k-1))
@@ -234,7 +242,7 @@ def c05_ladders(r, seed, tier, model_ok):
         bad.append(dict(program=loops(800)["proved-countdown"][0], impl=f"peak live evaluator frames by N: {pf}", model="4 at N = 0 and 5 for every N >= 1 (Loops2.countdown_main: demand depth <= 5 for every N)", which=["frames-vs-theorem"]))
     fr["proved-countdown-by-N"] = pf
     r.slice("iteration_ladders", len(cases), len(cases), [cases[0]["text"], cases[7]["text"]], dict(table=table, observer_max_depth=depths, peak_live_frames_at_50_200_800=fr, host_recursion_limit=400),
-            "nine tail-loop families (one of them the program of the theorem countdown_constant_depth) x N in 10..10^5(6) x observer on/off under recursion limit 400; non-tail depths across the frame limit; distinct = all cases", bad)
+            "fifteen tail-loop families (self, accumulator, through identity / selector / pipes / list / dictionary / collect calls, nested selection, mutual, I/O bind; one of them the program of the theorem countdown_constant_depth) x N in 10..10^5(6) x observer on/off under recursion limit 400; non-tail depths across the frame limit; distinct = all cases", bad)
     # nesting ladders: host recursion in formatter / recursive_strict / as_key / _bind is a KNOWN finding; any OTHER site is a violation
     nest = []
     for dep in [50, 200, 500, 2000]:
